@@ -14,6 +14,7 @@ DIM_POOL = {
     "m": ("material", ["steel", "wood"], str),
     "g": ("good", ["car", "bus", "bike"], str),
     "e": ("element", ["Fe", "Cu"], str),
+    "s": ("scenario", [0, 1, 2], int),  # labels counted from zero (a valid label that is falsy)
 }
 PUNCT_NAMES = ["sorting -> plant", "re-use (B2B)", "märkt & co", "a/b split", "100% scrap", "end_of_life"]
 
@@ -30,15 +31,26 @@ class Def:
         self.naming = "arrow"
 
 
-def gen_def(rng, max_proc=6, max_flows=12, max_stocks=3, hostile_names=False, n_time=None, self_loops=0.0):
+def gen_def(rng, max_proc=6, max_flows=12, max_stocks=3, hostile_names=False, n_time=None, self_loops=0.0, time_letter_variants=0.0, vary_items=False):
     d = Def()
     nt = int(rng.integers(3, 6)) if n_time is None else n_time
-    others = [l for l in "rmge"]
+    others = [l for l in "rmges"]
     k = int(rng.integers(1, 4))
     chosen = ["t"] + [str(x) for x in rng.permutation(others)[:k]]
     for l in chosen:
         n, items, dt = DIM_POOL[l]
-        items = list(items[:nt]) if l == "t" else list(items[: int(rng.integers(1 if rng.random() < 0.15 else 2, len(items) + 1))])
+        if vary_items:
+            if l == "t":
+                start = 1990 + int(rng.integers(0, 40))
+                items = [start + j for j in range(nt)]
+            else:
+                kk_ = int(rng.integers(1 if rng.random() < 0.15 else 2, len(items) + 1))
+                ext = list(items) + ([f"{items[0]}-{j}" for j in range(3)] if dt is str else [7, 11, 13])
+                items = [ext[j] for j in rng.permutation(len(ext))[:kk_]]
+                if dt is int and rng.random() < 0.6 and 0 not in items:
+                    items[0] = 0
+        else:
+            items = list(items[:nt]) if l == "t" else list(items[: int(rng.integers(1 if rng.random() < 0.15 else 2, len(items) + 1))])
         d.dims.append((l, n, items, dt))
     # the order of the system's dimension list is arbitrary
     if rng.random() < 0.5:
@@ -80,6 +92,17 @@ def gen_def(rng, max_proc=6, max_flows=12, max_stocks=3, hostile_names=False, n_
     for i in range(int(rng.integers(0, 5))):
         d.parameters.append(dict(name=f"param {i}", letters=rand_letters()))
     d.naming = str(rng.choice(["arrow", "no_spaces", "ids"]))
+    if rng.random() < time_letter_variants:
+        # the time dimension is lettered 'y'; sometimes another dimension carries the letter 't'
+        ren = {"t": "y"}
+        if rng.random() < 0.5 and any(x[0] == "g" for x in d.dims):
+            ren["g"] = "t"
+        d.dims = [(ren.get(l, l), n, it, dt) for l, n, it, dt in d.dims]
+        for coll in (d.flows, d.stocks, d.parameters):
+            for o in coll:
+                o["letters"] = tuple(ren.get(l, l) for l in o["letters"])
+        for s_ in d.stocks:
+            s_["time_letter"] = "y"
     return d
 
 
